@@ -57,7 +57,10 @@ pub fn make_module() -> KMap {
 
         match ctx.instance_and_args(is_list, expected_error)? {
             (KValue::List(l), [KValue::List(other)]) => {
-                l.data_mut().extend(other.data().iter().cloned());
+                // Copy the other list's data before borrowing the list mutably,
+                // the other list could be the same instance.
+                let other_data = other.data().clone();
+                l.data_mut().extend(other_data);
                 Ok(KValue::List(l.clone()))
             }
             (KValue::List(l), [KValue::Tuple(other)]) => {
@@ -69,19 +72,20 @@ pub fn make_module() -> KMap {
                 let iterable = iterable.clone();
                 let iterator = ctx.vm.make_iterator(iterable)?;
 
-                {
-                    let mut list_data = l.data_mut();
-                    let (size_hint, _) = iterator.size_hint();
-                    list_data.reserve(size_hint);
+                // The iterator could be reading from (or calling functions that modify) the list
+                // that's being extended, so it gets consumed before the list is mutably borrowed.
+                let (size_hint, _) = iterator.size_hint();
+                let mut new_values = ValueVec::with_capacity(size_hint);
 
-                    for value in iterator.map(collect_pair) {
-                        match value {
-                            KIteratorOutput::Value(value) => list_data.push(value.clone()),
-                            KIteratorOutput::Error(error) => return Err(error),
-                            _ => unreachable!(),
-                        }
+                for value in iterator.map(collect_pair) {
+                    match value {
+                        KIteratorOutput::Value(value) => new_values.push(value),
+                        KIteratorOutput::Error(error) => return Err(error),
+                        _ => unreachable!(),
                     }
                 }
+
+                l.data_mut().extend(new_values);
 
                 Ok(KValue::List(l))
             }
@@ -366,7 +370,9 @@ pub fn make_module() -> KMap {
             (KValue::List(l), [f]) if f.is_callable() => {
                 let l = l.clone();
 
-                let sorted = sort_by_key(ctx.vm, l.data().as_ref(), f.clone())?;
+                // The key function could access the list, so sort a copy of its data
+                let data = l.data().clone();
+                let sorted = sort_by_key(ctx.vm, data.as_ref(), f.clone())?;
 
                 for (target_value, (_key, source_value)) in
                     l.data_mut().iter_mut().zip(sorted.into_iter())
@@ -385,7 +391,10 @@ pub fn make_module() -> KMap {
 
         match ctx.instance_and_args(is_list, expected_error)? {
             (KValue::List(a), [KValue::List(b)]) => {
-                std::mem::swap(a.data_mut().deref_mut(), b.data_mut().deref_mut());
+                // Swapping a list with itself is a no-op (and can't be borrowed mutably twice)
+                if !a.is_same_instance(b) {
+                    std::mem::swap(a.data_mut().deref_mut(), b.data_mut().deref_mut());
+                }
                 Ok(KValue::Null)
             }
             (instance, args) => unexpected_args_after_instance(expected_error, instance, args),
@@ -409,11 +418,18 @@ pub fn make_module() -> KMap {
                 let l = l.clone();
                 let f = f.clone();
 
-                for value in l.data_mut().iter_mut() {
-                    *value = match ctx.vm.call_function(f.clone(), value.clone()) {
-                        Ok(result) => result,
-                        Err(error) => return Err(error),
+                // The function could access the list, so the list can't be borrowed while the
+                // function is being called.
+                let mut index = 0;
+                loop {
+                    let Some(value) = l.data().get(index).cloned() else {
+                        break;
+                    };
+                    let result = ctx.vm.call_function(f.clone(), value)?;
+                    if let Some(slot) = l.data_mut().get_mut(index) {
+                        *slot = result;
                     }
+                    index += 1;
                 }
 
                 Ok(KValue::List(l))
